@@ -3,13 +3,14 @@
 package rules
 
 import (
-	"sync"
 	"fmt"
 	"go/ast"
 	"go/token"
 	"go/types"
+	"golang.org/x/tools/go/types/typeutil"
 	"sort"
 	"strings"
+	"sync"
 
 	"utilverif/internal/core"
 )
@@ -50,7 +51,7 @@ type Ctx struct {
 	// the largest single walk (paths, rule:entry): how far the run was from the per-entry path cap
 	MaxEntryPaths int
 	MaxEntryName  string
-	Notes       []string
+	Notes         []string
 	// caches shared between rules
 	cache map[string]interface{}
 }
@@ -687,6 +688,66 @@ func returnExprs(p *core.Path, i int) []ast.Expr {
 			}
 			r = src
 			out[k] = src
+		}
+	}
+	return out
+}
+
+// returnExprsC is returnExprs with one more normalisation: return helper(args…) where the helper is a
+// same-module function that was not walked in place and whose body only declares zero values and
+// returns a tuple built from its parameters and those zero values (func fail[T any](err error) (T, error)
+// { var zero T; return zero, err }) reads as the tuple with the arguments substituted; results that are
+// not parameters are left as the helper's own (zero-valued) identifiers.
+func returnExprsC(c *Ctx, p *core.Path, i int) []ast.Expr {
+	rs := returnExprs(p, i)
+	if len(rs) != 1 {
+		return rs
+	}
+	ev := p.Events[i]
+	call, ok := unparen(rs[0]).(*ast.CallExpr)
+	if !ok {
+		return rs
+	}
+	f, _ := typeutil.Callee(ev.Frame.Info(), call).(*types.Func)
+	if f == nil {
+		return rs
+	}
+	d := c.Prog.Decl(f.Origin())
+	if d == nil || d.Decl.Body == nil || len(d.Decl.Body.List) == 0 {
+		return rs
+	}
+	body := d.Decl.Body.List
+	ret, ok := body[len(body)-1].(*ast.ReturnStmt)
+	if !ok || len(ret.Results) < 2 {
+		return rs
+	}
+	for _, st := range body[:len(body)-1] {
+		ds, ok := st.(*ast.DeclStmt)
+		if !ok {
+			return rs
+		}
+		gd, ok := ds.Decl.(*ast.GenDecl)
+		if !ok || gd.Tok != token.VAR {
+			return rs
+		}
+		for _, sp := range gd.Specs {
+			if vs, ok := sp.(*ast.ValueSpec); !ok || len(vs.Values) != 0 {
+				return rs
+			}
+		}
+	}
+	params := paramVars(d)
+	out := make([]ast.Expr, len(ret.Results))
+	for k, r := range ret.Results {
+		out[k] = r
+		if id, ok := unparen(r).(*ast.Ident); ok {
+			if v, _ := d.Pkg.TypesInfo.ObjectOf(id).(*types.Var); v != nil {
+				for pi, pv := range params {
+					if pv == v && pi < len(call.Args) {
+						out[k] = call.Args[pi]
+					}
+				}
+			}
 		}
 	}
 	return out
